@@ -200,7 +200,14 @@ func (Fees) Check(t *explore.Transition) ([]V, bool) {
 	// (a) the reward pool receives the base value of the commission minus the ticker fee
 	dRew := new(big.Int).Sub(r.RewardsAfter, r.RewardsBefore)
 	want := new(big.Int).Sub(price, burned)
-	if dRew.Cmp(want) != 0 {
+	// a commission swapped through a pool is the integer quote for buying `price` base coins;
+	// selling that quote yields the price plus at most the rounding slack of the pair arithmetic
+	slack := int64(0)
+	if v, ok := tagOf(r, "tx.commission_conversion"); ok && v == "pool" {
+		slack = 2
+	}
+	over := new(big.Int).Sub(dRew, want)
+	if over.Sign() < 0 || over.Cmp(big.NewInt(slack)) > 0 {
 		out = append(out, V{Signature: "reward-pool-delta|" + ty, Detail: fmt.Sprintf("tx %q: reward pool grew by %s, model says %s (price %s, ticker fee %s)", r.T.Name, dRew, want, price, burned)})
 	}
 	// (b) the ticker fee lands on the zero address
@@ -212,7 +219,7 @@ func (Fees) Check(t *explore.Transition) ([]V, bool) {
 		}
 	}
 	// (c) reported base value
-	if v, ok := tagOf(r, "tx.commission_in_base_coin"); ok && v != price.String() {
+	if v, ok := tagOf(r, "tx.commission_in_base_coin"); ok && (obs.Num(v).Cmp(price) < 0 || new(big.Int).Sub(obs.Num(v), price).Cmp(big.NewInt(slack)) > 0) {
 		out = append(out, V{Signature: "tag-commission-in-base|" + ty, Detail: fmt.Sprintf("tx %q: tag tx.commission_in_base_coin=%s, model %s", r.T.Name, v, price)})
 	}
 	// (d) amount charged in the gas coin
